@@ -44,6 +44,20 @@ def _ubj_h_mix(tr):
     return False
 
 
+@pred("gotype.self-referential-type")
+def _rec_type(tr):
+    """Fold / SetTarget on a self-referential named type (type N struct{Next *N}, tree types)."""
+    t = (tr.get("sub") or {}).get("T") or {}
+
+    def walk(x):
+        if not isinstance(x, dict):
+            return False
+        if x.get("k") == "named" and x.get("id") in ("RecNode", "RecTree"):
+            return True
+        return any(walk(y) for y in x.get("e", [])) or any(walk(f.get("t")) for f in x.get("f", []))
+    return walk(t)
+
+
 def load():
     p = os.path.join(VERIF, "known_findings.json")
     if not os.path.exists(p):
